@@ -615,7 +615,11 @@ C05_CropCount == (IsOut("out.end") /\ Ev.kind = "crop") => outs.ccount = Len(his
 \* entry after the initial one whose harvest date lies inside the executed period is a harvested crop of the rotation
 C05_CropCountRot == (IsOut("out.end") /\ Ev.kind = "crop" /\ ix.cfg > 0 /\ ix.gen > 0 /\ Has(Gen, "rot") /\ ~Cfg.autoHar) =>
    outs.ccount = Len(SelectSeq(Tail(Gen.rot), LAMBDA e : e[2] <= Cfg.ende /\ e[2] > Cfg.begin))
-C05_All == C05_Begin /\ C05_Fields /\ C05_ValidDates /\ C05_DailyFirst /\ C05_DailyConsecutive /\ C05_DailyEnd /\ C05_NoMissingFile /\ C05_YearlyDates /\ C05_YearlyCount /\ C05_CropRecords /\ C05_CropCount /\ C05_CropCountRot
+\* ... and under automatic harvest: every entry whose latest harvest date lies inside the executed period has been
+\* taken off the field by then (sown or not, emerged or not) and has its record
+C05_CropCountAuto == (IsOut("out.end") /\ Ev.kind = "crop" /\ ix.cfg > 0 /\ ix.gen > 0 /\ Has(Gen, "win") /\ Cfg.autoHar) =>
+   outs.ccount >= Cardinality({j \in 1..Len(Gen.win) : Gen.win[j][3] > 0 /\ Gen.win[j][3] < Cfg.ende})
+C05_All == C05_CropCountAuto /\ C05_Begin /\ C05_Fields /\ C05_ValidDates /\ C05_DailyFirst /\ C05_DailyConsecutive /\ C05_DailyEnd /\ C05_NoMissingFile /\ C05_YearlyDates /\ C05_YearlyCount /\ C05_CropRecords /\ C05_CropCount /\ C05_CropCountRot
 
 
 \* =============================================================================================
